@@ -22,14 +22,19 @@ _CMP = {"==": operator.eq, "!=": operator.ne, "<": operator.lt, "<=": operator.l
         ">": operator.gt, ">=": operator.ge}
 
 
-def den(e, env, cse_cache=None):
+def den(e, env, cse_cache=None, overrides=()):
+    """overrides: sequence of (node, value): a node structurally equal to `node` (same class) denotes `value`
+    (used by C08 for whole-node substitution keys)."""
     if cse_cache is None:
         cse_cache = {}
 
     def d(x):
-        return den(x, env, cse_cache)
+        return den(x, env, cse_cache, overrides)
 
     t = type(e)
+    for k, v in overrides:
+        if type(k) is t and isinstance(e, p.Expression) and k == e:
+            return v
     if not isinstance(e, p.Expression):
         if isinstance(e, tuple):
             return tuple(d(c) for c in e)
